@@ -7,7 +7,7 @@ E1 (sharded, exhaustive over stated finite spaces, reference = mc/ref_c09.py + r
              sequence; boundary ranks (first/last 24 of each length) for longer lengths
   rank_reject  ranks outside 0..n!-1 (and negative ranks without a length) are not accepted
   order      <, <=, >, >= between Perms == comparison of ranks (all pairs); sorted/min/max
-  std        Perm.to_standard on all sequences over small alphabets, nine value/container
+  std        Perm.to_standard on all sequences over small alphabets, ten value/container
              variants (ints, floats, bools, strings, tuples, mixed, generators ...), aliases
   notation   from_string(str(p)), from_string(digits), eval(repr(p)), one_based, from_integer
              (1-based; 0-based when representable), from_iterable_validated, to_standard
@@ -30,11 +30,31 @@ import sys
 
 from .. import refmodel as R
 from .. import ref_c09 as RC
-from ..core import Partial, REPO, VERIF
+from ..core import Partial, REPO, VERIF, jsonable
 from ..explore import bfs
 
 PROPERTY = "C09"
 LEVEL = "model_checking"
+
+
+class Part(Partial):
+    """Partial that lists at most two violations per sub-check and shard (the rest is only
+    counted), so that one massively failing sub-check cannot crowd the others out of the
+    report."""
+    __slots__ = ("persub",)
+
+    def __init__(self):
+        super().__init__()
+        self.persub = {}
+
+    def violation(self, sub, case, detail=None, sig=None):
+        n = self.persub.get(sub, 0)
+        self.persub[sub] = n + 1
+        if n < 2:
+            super().violation(sub, case, detail, sig)
+        else:
+            self.nviol += 1
+            self.bump("violations_not_listed")
 
 
 def _P():
@@ -97,7 +117,7 @@ def check_gen(part, kind, n):
 
 def shard_gen(shard):
     kind, n = shard
-    part = Partial()
+    part = Part()
     cnt = check_gen(part, kind, n)
     part.add(1, 1 if n >= 2 else 0)
     part.bump("gen_items_compared", cnt)
@@ -121,7 +141,7 @@ def check_first(part, k, ref):
 
 def shard_first(shard):
     ks, n = shard
-    part = Partial()
+    part = Part()
     ref = RC.graded(n)
     assert max(ks) <= len(ref)
     for k in ks:
@@ -169,7 +189,7 @@ def rank_case(Perm, r, p):
 def shard_rank(shard):
     n, lo, hi = shard
     Perm = _P()
-    part = Partial()
+    part = Part()
     ref = RC.graded(n)
     nt = 0
     for r in range(lo, hi):
@@ -210,7 +230,7 @@ def boundary_perm(n, end, i):
 def shard_rank_boundary(shard):
     n, width = shard
     Perm = _P()
-    part = Partial()
+    part = Part()
     for end in ("first", "last"):
         gen = RC.lex_perms(n) if end == "first" else RC.lex_perms_desc(n)
         for i, p in enumerate(itertools.islice(gen, width)):
@@ -228,14 +248,15 @@ def check_reject(part, r, n):
     Perm = _P()
     try:
         got = Perm.unrank(r) if n is None else Perm.unrank(r, n)
-    except Exception:  # noqa
+    except Exception as exc:  # noqa
+        part.outcomes.add("unrank rejects with " + type(exc).__name__)
         return
     part.violation("rank_reject", {"r": r, "n": n}, {"returned": describe(got)})
 
 
 def shard_rank_reject(shard):
     maxn, = shard
-    part = Partial()
+    part = Part()
     for n in range(0, maxn + 1):
         f = RC.fact(n)
         for r in itertools.chain(range(-f - 1, 0), range(f, 2 * f + 2)):
@@ -266,7 +287,7 @@ def order_case(Perm, a, ia, b, ib):
 def shard_order(shard):
     m, lo, hi = shard
     Perm = _P()
-    part = Partial()
+    part = Part()
     ref = RC.graded(m)
     for ia in range(lo, hi):
         a = ref[ia]
@@ -315,7 +336,7 @@ def check_sorted(part, n, name):
 
 def shard_sorted(shard):
     n, name = shard
-    part = Partial()
+    part = Part()
     check_sorted(part, n, name)
     part.add(1, 1)
     return part
@@ -324,7 +345,7 @@ def shard_sorted(shard):
 def shard_adjacent(shard):
     n, lo, hi = shard
     Perm = _P()
-    part = Partial()
+    part = Part()
     ref = RC.graded(n)
     for i in range(lo, min(hi, len(ref) - 1)):
         d = order_case(Perm, ref[i], i, ref[i + 1], i + 1) or \
@@ -358,8 +379,9 @@ VARIANTS = {
     "pair": (lambda i, v: (v, "x"), "iter"),
     "big": (lambda i, v: v * 10 ** 20 - 5, "tuple"),
     "half": (lambda i, v: v / 2, "list"),
+    "neg": (lambda i, v: v - 2, "tuple"),             # -1 and -2 have the same hash in CPython
 }
-VARIANT_ORDER = ("int", "float", "affine", "str", "bool", "mixed", "pair", "big", "half")
+VARIANT_ORDER = ("int", "float", "affine", "str", "bool", "mixed", "pair", "big", "half", "neg")
 ENTRIES = ("to_standard", "standardize", "from_iterable")
 
 
@@ -390,14 +412,15 @@ def check_std(part, Perm, seq, variant, entry, ref=None):
         return
     if not is_perm_obj(Perm, got, ref):
         part.violation("std", case, {"expected": ref, "got": describe(got)})
+    elif len(ref) <= 4:
+        part.outcomes.add("std -> " + "".join(map(str, ref)))
 
 
 def shard_std(shard):
     a, length, lo, hi, order = shard
     Perm = _P()
-    part = Partial()
-    if hasattr(Perm, "_to_standard") and hasattr(Perm._to_standard, "cache_clear"):
-        Perm._to_standard.cache_clear()
+    part = Part()
+    reset_hidden()
     names = VARIANT_ORDER if order == 0 else VARIANT_ORDER[::-1]
     seqs = itertools.islice(itertools.product(range(a), repeat=length), lo, hi)
     n = nt = 0
@@ -416,7 +439,7 @@ def shard_std(shard):
         if len(set(seq)) < len(seq):
             nt += 1
     part.add(n, nt if order == 0 else 0)
-    if lo == 0 and order == 0 and length >= 3:
+    if lo == 0 and order == 0 and length == 4 and a >= 4:
         seq = tuple(itertools.islice(itertools.product(range(a), repeat=length), 7, 8))[0]
         part.sample({"sub": "std", "seq": seq, "expected": R.std(seq)}, cap=1)
     return part
@@ -477,7 +500,7 @@ def run_notation(part, Perm, perms):
 def shard_notation(shard):
     kind = shard[0]
     Perm = _P()
-    part = Partial()
+    part = Part()
     if kind == "graded":
         _, n, lo, hi = shard
         run_notation(part, Perm, RC.graded(n)[lo:hi])
@@ -535,6 +558,7 @@ def check_validated(part, Perm, t, form):
     except ValueError as exc:
         if exp:
             part.violation("validated", case, {"expected": "accepted", "exception": repr(exc)})
+        part.outcomes.add("from_iterable_validated: ValueError " + str(exc).split(":")[0])
         return
     except Exception as exc:  # noqa
         part.violation("validated", case,
@@ -549,7 +573,7 @@ def check_validated(part, Perm, t, form):
 def shard_validated(shard):
     n, lo, hi = shard
     Perm = _P()
-    part = Partial()
+    part = Part()
     cnt = nt = 0
     for t in itertools.islice(itertools.product(range(-1, n + 1), repeat=n), lo, hi):
         for form in FORMS:
@@ -585,7 +609,7 @@ def check_validated_type(part, Perm, p, i, badname):
 def shard_validated_type(shard):
     maxn, = shard
     Perm = _P()
-    part = Partial()
+    part = Part()
     for n in range(1, maxn + 1):
         for p in RC.lex_perms(n):
             for i in range(n):
@@ -711,7 +735,7 @@ def sparse_numbers(k, low):
 def shard_mesh(shard):
     kind = shard[0]
     Perm, MeshPatt = _P(), _M()
-    part = Partial()
+    part = Part()
     if kind in ("all", "sparse+of_length"):
         _, perm = shard
         k = len(perm)
@@ -761,7 +785,8 @@ def check_mesh_reject(part, perm, r):
     Perm, MeshPatt = _P(), _M()
     try:
         got = MeshPatt.unrank(Perm(perm), r)
-    except Exception:  # noqa
+    except Exception as exc:  # noqa
+        part.outcomes.add("MeshPatt.unrank rejects with " + type(exc).__name__)
         return
     part.violation("mesh_reject", {"perm": perm, "r": r}, {"returned": repr(got)})
 
@@ -851,6 +876,71 @@ def hidden_state():
                         out.append((name, cname + "." + ck, tuple(item)))
     out.sort()
     return tuple(out)
+
+
+def hidden_containers():
+    """The mutable containers hidden_state() looks at, as objects."""
+    import collections
+    import types
+    cont = (list, dict, set, collections.deque)
+    for name in MODULES:
+        mod = sys.modules.get(name)
+        if mod is None:
+            continue
+        for k, v in list(vars(mod).items()):
+            if isinstance(v, cont):
+                if not k.startswith("__"):
+                    yield v
+            elif isinstance(v, type) and v.__module__ == name:
+                for ck, cv in list(vars(v).items()):
+                    t = type(cv)
+                    f = None
+                    if t is types.FunctionType:
+                        f = cv
+                    elif t is classmethod or t is staticmethod:
+                        f = cv.__func__
+                        if type(f) is not types.FunctionType:
+                            f = getattr(f, "__wrapped__", None)
+                    elif isinstance(cv, cont):
+                        if not ck.startswith("__"):
+                            yield cv
+                        continue
+                    if type(f) is types.FunctionType:
+                        for x in (f.__defaults__ or ()):
+                            if isinstance(x, cont):
+                                yield x
+                        for x in (f.__kwdefaults__ or {}).values():
+                            if isinstance(x, cont):
+                                yield x
+
+
+_PRISTINE = None
+
+
+def snapshot_pristine():
+    """Called once per interpreter BEFORE the first library call (forked workers inherit it):
+    remembers the import-time content of every hidden container, so that a replay can start
+    from the import-time state even when the state is kept somewhere I cannot name."""
+    global _PRISTINE
+    if _PRISTINE is None:
+        import copy
+        _P()
+        _M()
+        _PRISTINE = [(obj, copy.deepcopy(obj)) for obj in hidden_containers()]
+
+
+def reset_hidden():
+    import collections
+    for obj, snap in (_PRISTINE or ()):
+        if isinstance(obj, (list, collections.deque)):
+            obj.clear()
+            obj.extend(snap)
+        else:
+            obj.clear()
+            obj.update(snap)
+    cache = std_cache()
+    if cache is not None:
+        cache.cache_clear()
 
 
 def std_cache():
@@ -961,9 +1051,8 @@ class StdHistory:
         return self.menu
 
     def prepare(self, Perm):
+        reset_hidden()
         cache = std_cache()
-        if cache is not None:
-            cache.cache_clear()
         if self.init == "fresh":
             return
         if self.init == "warm":
@@ -993,12 +1082,18 @@ class StdHistory:
     def build(self, hist):
         Perm = _P()
         assert hist and hist[0][0] == "init" and hist[0][1] == self.init
-        self.prepare(Perm)
+        try:
+            self.prepare(Perm)
+        except Exception as exc:  # noqa
+            # the starting state itself cannot be built: reported once, at the initial history
+            v = {"op": hist[0], "exception_while_preparing": repr(exc)}
+            return ("prepare-failed", self.init), ([v] if len(hist) == 1 else [])
         handed = []        # (object, reference tuple)
         last_obj = {}      # key class -> object last handed out
         recency = []       # model: key classes, least recently used first
         viols = []
-        ops = hist[1:]
+        obs = self.last_obs = []     # what every operation returned (for the fresh-interpreter
+        ops = hist[1:]               # cross-check)
         lastidx = len(ops) - 1
         for hi, op in enumerate(ops):
             v = None
@@ -1018,6 +1113,7 @@ class StdHistory:
                 if not is_perm_obj(Perm, obj, ref):
                     v = {"op": op, "expected": ref, "got": describe(obj)}
                 handed.append((obj, ref))
+                obs.append([list(op), describe(obj)])
                 if not (kind == "fromint" and self.ints[op[1]] == 0):
                     c = self.cls[ki]
                     last_obj[c] = obj
@@ -1027,21 +1123,25 @@ class StdHistory:
                 if v is None and kind == "patt":
                     t = self.texts[op[2]]
                     got = list(obj.occurrences_in(Perm(t)))
+                    obs[-1].append(got)
                     exp = R.occurrences(ref, t)
                     if got != exp:
                         v = {"op": op, "expected": exp, "got": got}
                 elif v is None and kind == "text":
                     p = self.patts[op[2]]
                     got = list(Perm(p).occurrences_in(obj))
+                    obs[-1].append(got)
                     exp = R.occurrences(p, ref)
                     if got != exp:
                         v = {"op": op, "expected": exp, "got": got}
                 elif v is None and kind == "inv":
                     got = obj.inverse()
+                    obs[-1].append(describe(got))
                     if not is_perm_obj(Perm, got, R.inverse(ref)):
                         v = {"op": op, "expected": R.inverse(ref), "got": describe(got)}
             except Exception as exc:  # noqa
                 v = {"op": op, "exception": repr(exc)}
+                obs.append([list(op), "raised " + repr(exc)])
             if v is None:
                 # integrity of everything handed out so far (shared objects)
                 for (o, ref) in handed:
@@ -1115,6 +1215,7 @@ class RankHistory:
 
     def build(self, hist):
         Perm, MeshPatt = _P(), _M()
+        reset_hidden()
         gens = []   # [generator, kind index, consumed, exhausted]
         viols = []
         last = len(hist) - 1
@@ -1176,7 +1277,7 @@ class RankHistory:
 
 def shard_history(shard):
     kind = shard[0]
-    part = Partial()
+    part = Part()
     if kind == "std":
         _, famname, init, depth = shard
         if init == "full":
@@ -1189,7 +1290,7 @@ def shard_history(shard):
         initials = [(("init", init),)]
 
         def on_violation(hist, v):
-            part.violation("history", {"model": "std", "family": famname, "init": init,
+            part.violation("history_std", {"model": "std", "family": famname, "init": init,
                                        "history": list(hist)}, v)
         st = bfs(initials, model.menu, model.build, depth, on_violation, enabled=model.enabled)
         samples = [(famname, init, h) for h in st.sample_histories[:2]]
@@ -1202,7 +1303,7 @@ def shard_history(shard):
         initials = [(firstop,)]
 
         def on_violation(hist, v):
-            part.violation("history", {"model": "rank", "history": list(hist)}, v)
+            part.violation("history_rank", {"model": "rank", "history": list(hist)}, v)
         st = bfs(initials, model.menu, model.build, depth - 1, on_violation,
                  enabled=model.enabled)
         samples = []
@@ -1233,33 +1334,42 @@ def to_hist(h):
 
 
 def fresh_entry(spec):
+    snapshot_pristine()
+    for other in spec.get("dirty_with", ()):       # in-process only: use the process first
+        StdHistory(other[0], other[1]).build(to_hist(other[2]))
     model = StdHistory(spec["family"], spec["init"])
     canon, viols = model.build(to_hist(spec["history"]))
-    return json.dumps({"canon": repr(canon), "viols": len(viols)})
+    return json.dumps({"observations": jsonable(getattr(model, "last_obs", None)),
+                       "viols": len(viols), "canon": repr(canon)}, sort_keys=True)
 
 
 def shard_fresh(shard):
-    famname, init, hist = shard
-    part = Partial()
+    """Same history in this (long-lived, reset by name) process and in a fresh interpreter:
+    the OBSERVATIONS (what every operation returned) must be identical - that is demanded of
+    the library.  A different canonical state only says that the reset is not complete (state I
+    cannot reset by name): reported as a cap, not as a violation."""
+    famname, init, hist = shard[:3]
+    others = shard[3] if len(shard) > 3 else ()
+    part = Part()
     spec = {"family": famname, "init": init, "history": [list(op) for op in hist]}
-    model = StdHistory(famname, init)
-    canon, viols = model.build(to_hist(hist))
-    here = json.dumps({"canon": repr(canon), "viols": len(viols)})
+    here = json.loads(fresh_entry(dict(spec, dirty_with=[o for o in others if o[1] != "full"])))
     env = dict(os.environ)
     env["PYTHONHASHSEED"] = "0"
     env["PYTHONDONTWRITEBYTECODE"] = "1"
     proc = subprocess.run([sys.executable, "-B", "-c", FRESH_CODE, REPO, VERIF, json.dumps(spec)],
-                          capture_output=True, text=True, env=env, cwd=VERIF, timeout=300)
+                          capture_output=True, text=True, env=env, cwd=VERIF, timeout=600)
     lines = [ln for ln in proc.stdout.splitlines() if ln.startswith("CANON ")]
     if proc.returncode != 0 or not lines:
         raise RuntimeError("fresh interpreter failed: %s" % proc.stderr[-2000:])
-    there = lines[-1][len("CANON "):]
-    if here != there:
+    there = json.loads(lines[-1][len("CANON "):])
+    if (here["observations"], here["viols"]) != (there["observations"], there["viols"]):
         part.violation("fresh", {"model": "std", "family": famname, "init": init,
                                  "history": spec["history"]},
-                       {"in_process": here[:1500], "fresh_interpreter": there[:1500]})
+                       {"in_process": here["observations"], "in_process_violations": here["viols"],
+                        "fresh_interpreter": there["observations"],
+                        "fresh_interpreter_violations": there["viols"]})
     part.add(1, 1)
-    return part
+    return part, (here["canon"] == there["canon"])
 
 
 # --------------------------------------------------------------------------------------------
@@ -1290,13 +1400,14 @@ def run(ctx, only=None):
         "hidden state is searched for in module/class level containers, default arguments, "
         "function attributes and closure cells of permuta.patterns.{perm,meshpatt,patt}",
     ]
+    snapshot_pristine()
     N = 8 if quick else 9
     RC.selftest(N)                      # also builds the reference table before forking
     ref = RC.graded(N)
 
     if want("gen"):
         e0 = ctx.evals
-        ctx.pmap(shard_gen, [(kind, n) for n in range(N, -1, -1)
+        ctx.pmap(shard_gen, [(kind, n) for n in range(0, N + 1)
                              for kind in ("of_length", "up_to_length")])
         ctx.bounds["gen"] = "of_length(n), up_to_length(n) for n = 0..%d, whole sequences" % N
         ctx.section("gen", evaluations=ctx.evals - e0)
@@ -1315,7 +1426,7 @@ def run(ctx, only=None):
             bound = ("every k = 0..%d (= |S<=7| + 1); every k = %d..%d (= |S<=8| + 1) that is a "
                      "multiple of 8 or within 2 of a length boundary" % (K7, K7 + 1, K8))
         nsh = 64 if quick else 192
-        shards = [(ks[i::nsh][::-1], 8 if quick else 9) for i in range(nsh)]
+        shards = [(ks[i::nsh], 8 if quick else 9) for i in range(nsh)]
         ctx.pmap(shard_first, [s for s in shards if s[0]])
         ctx.bounds["first"] = bound
         ctx.section("first", evaluations=ctx.evals - e0)
@@ -1352,7 +1463,7 @@ def run(ctx, only=None):
                 for lo, hi in chunks(a ** length, 6000):
                     for order in (0, 1):
                         shards.append((a, length, lo, hi, order))
-        shards.sort(key=lambda s: -(s[3] - s[2]))
+        shards.sort(key=lambda s: (s[1], s[0], s[2], s[4]))      # shortest sequences first
         ctx.pmap(shard_std, shards)
         ctx.bounds["std"] = {"alphabet_size, max_length": plan, "variants": list(VARIANT_ORDER),
                              "variant_orders": 2,
@@ -1384,12 +1495,13 @@ def run(ctx, only=None):
         ctx.section("validated", evaluations=ctx.evals - e0)
     if want("mesh"):
         e0 = ctx.evals
-        shards = [("sparse+of_length" if quick else "all", p) for p in RC.lex_perms(3)]
-        shards += [("all", p) for k in (2, 1, 0) for p in RC.lex_perms(k)]
+        shards = [("all", p) for k in (0, 1, 2) for p in RC.lex_perms(k)]
         shards += [("of_length", k) for k in (0, 1, 2)]
         shards += [("reject", 3)]
         if not quick:
-            shards = [("of_length", 3)] + shards
+            shards += [("of_length", 3)]
+        shards += [("sparse+of_length" if quick else "all", p) for p in RC.lex_perms(3)]
+        if not quick:
             shards += [("sparse", p) for p in RC.lex_perms(4)]
         ctx.pmap(shard_mesh, shards)
         ctx.bounds["mesh"] = (
@@ -1407,11 +1519,11 @@ def run(ctx, only=None):
         e0 = ctx.evals
         depth = {"fresh": 3, "warm": 3, "full": 2} if quick else {"fresh": 4, "warm": 4, "full": 3}
         rdepth = 3 if quick else 4
-        shards = [("std", fam, init, depth[init]) for init in ("full", "warm", "fresh")
-                  for fam in FAMILIES]
+        shards = [("std", fam, init, depth[init]) for init in INITS for fam in FAMILIES]
         rmodel = RankHistory()
         shards += [("rank", op, rdepth) for op in rmodel.menu if op[0] != "gstep"]
         res = ctx.pmap(shard_history, shards)
+        res = [r for r in res if r is not None]     # None: shard died inside the library
         ctx.states += sum(r[0] for r in res)
         ctx.transitions += sum(r[1] for r in res)
         ctx.traces += sum(r[1] for r in res)
@@ -1428,7 +1540,10 @@ def run(ctx, only=None):
             nf = (6, 2) if quick else (16, 4)
             samples = [s for s in samples if s[1] != "full"][:nf[0]] + \
                       [s for s in samples if s[1] == "full"][:nf[1]]
-            ctx.pmap(shard_fresh, samples)
+            same = ctx.pmap(shard_fresh, [smp + (samples,) for smp in samples])
+            if not all(x for x in same if x is not None):
+                ctx.cap("state after a replay in the worker differs from the state after the same "
+                        "history in a fresh interpreter: reset by name is incomplete")
             ctx.traces += len(samples)
             ctx.bounds["fresh"] = "%d explored histories re-run in a fresh interpreter" % len(samples)
             ctx.section("fresh", histories=len(samples))
@@ -1441,9 +1556,23 @@ def run(ctx, only=None):
 # --------------------------------------------------------------------------------------------
 
 def replay(ctx, rec):
+    """The recorded case is evaluated up to three times in this process and the first failure is
+    reported: a failure that needs an earlier call in the same process (state kept between
+    calls) then shows on the second evaluation, and the verdict is the same however often
+    replay() is called."""
+    for _ in range(3):
+        tmp = Partial()
+        replay_once(tmp, rec)
+        if tmp.viols:
+            v = tmp.viols[0]
+            ctx.violation(v["sub"], rec["case"], v["detail"], v["sig"])
+            return
+
+
+def replay_once(part, rec):
+    snapshot_pristine()
     Perm, MeshPatt = _P(), _M()
     sub, case = rec["sub"], rec["case"]
-    part = ctx
     if sub == "gen":
         check_gen(part, case["kind"], case["n"])
     elif sub == "first":
@@ -1545,7 +1674,7 @@ def replay(ctx, rec):
         check_mesh_of_length(part, case["k"], None if case["patt"] is None else tuple(case["patt"]))
     elif sub == "mesh_reject":
         check_mesh_reject(part, tuple(case["perm"]), case["r"])
-    elif sub in ("history", "fresh"):
+    elif sub in ("history_std", "history_rank", "fresh"):
         hist = to_hist(case["history"])
         if case["model"] == "std":
             model = StdHistory(case["family"], case["init"])
@@ -1562,13 +1691,13 @@ def replay(ctx, rec):
         for i in range(start, len(hist) + 1):
             _, viols = model.build(hist[:i])
             if viols:
-                part.violation("history", case, viols[0])
+                part.violation(sub, case, viols[0])
                 break
     else:
         raise ValueError("unknown sub-check %r" % sub)
 
 
 def shard_fresh_into(part, case):
-    res = shard_fresh((case["family"], case["init"], to_hist(case["history"])))
+    res, _ = shard_fresh((case["family"], case["init"], to_hist(case["history"])))
     part.viols.extend(res.viols)
     part.nviol += res.nviol
